@@ -214,11 +214,6 @@ do_sign(const struct pline * l)
 		R->cnt[N_SECRET60]++;
 	R->cnt[N_SIGN]++;
 	R->cnt[N_V0 + variant]++;
-	if (variant >= 2 && body == NULL) {
-		/* these variants always carry a body */
-		body = malloc(1);
-		bodylen = 0;
-	}
 	if (wall_now < 0)
 		wall_now = 0;
 	live0 = simalloc_lib_live(NULL);
@@ -263,7 +258,7 @@ do_sign(const struct pline * l)
 		char scope[800], * cred, * sigp;
 		const char * svc = variant == 0 ? "s3" : variant == 2 ? bucket : "dynamodb";
 
-		sigv4_ref_sha256hex(body, (variant == 0 && bodykind == 0) ? 0 : bodylen, want_hash);
+		sigv4_ref_sha256hex(body ? body : (const uint8_t *)"", bodykind == 0 ? 0 : bodylen, want_hash);	/* an absent body hashes as empty, whatever length was passed */
 		if (strcmp(sha, want_hash) != 0)
 			sim_viol("C19.hash", "hash", "x-amz-content-sha256 is not the SHA-256 of the body (%zu bytes, %s)", bodylen, bodykind == 0 ? "absent" : "present");
 		if (!valid_datetime(dt))
